@@ -56,6 +56,9 @@ fn lower_helper(session: &Session, grammar: pt::Grammar, validate: bool) -> Norm
         "Conditional compilation",
         cond_comp::remove_disabled_decls(session, grammar)?
     );
+    if validate {
+        prevalidate::validate_precedence_after_cond_comp(&grammar)?;
+    }
     let grammar = profile!(session, "Grammar resolution", resolve::resolve(grammar)?);
     let grammar = profile!(
         session,
